@@ -20,7 +20,20 @@ type compName string
 type count int
 type flag bool
 
+// urgency is a named integer with a String method of its own (fmt would print the word; the control text is the number)
+type urgency int
+
+func (u urgency) String() string { return [...]string{"low", "medium", "high"}[int(u)%3] }
+
+type level uint
+
+func (l level) String() string { return "L" }
+
 type namedKinds struct {
+	Urg   urgency
+	Lvl   level
+	Urgs  []urgency
+	Lead  []string   `delim:","` // may begin with empty elements
 	Comps []compName `delim:", "`
 	One   compName
 	N     count
@@ -124,6 +137,16 @@ func checkShape(scen string, in ShapeIn) []*mc.Violation {
 			orig.Plain = append(orig.Plain, fmt.Sprintf("p%d", i))
 		}
 		orig.N, orig.On = count(in.N), in.N%2 == 1
+		orig.Urg, orig.Lvl = urgency(in.N%3), level(in.N)
+		for i := 0; i < in.N; i++ {
+			orig.Urgs = append(orig.Urgs, urgency(i))
+		}
+		if in.N >= 2 {
+			orig.Lead = []string{"", "y", "z"}
+		}
+		if in.N >= 3 {
+			orig.Lead = []string{"", "", "y", "", "z"}
+		}
 		var buf bytes.Buffer
 		var back namedKinds
 		var err error
@@ -137,6 +160,9 @@ func checkShape(scen string, in ShapeIn) []*mc.Violation {
 		if err != nil {
 			bad("roundtrip-field-equal", "nil error", fmt.Sprintf("%v (text %q)", err, buf.String()))
 			return vs
+		}
+		if fmt.Sprintf("%q", orig.Lead) != fmt.Sprintf("%q", back.Lead) || orig.Urg != back.Urg || orig.Lvl != back.Lvl || fmt.Sprintf("%d", orig.Urgs) != fmt.Sprintf("%d", back.Urgs) {
+			bad("roundtrip-field-equal", fmt.Sprintf("Lead=%q Urg=%d Lvl=%d Urgs=%d", orig.Lead, orig.Urg, orig.Lvl, orig.Urgs), fmt.Sprintf("Lead=%q Urg=%d Lvl=%d Urgs=%d (text %q)", back.Lead, back.Urg, back.Lvl, back.Urgs, buf.String()))
 		}
 		if fmt.Sprint(orig.Comps) != fmt.Sprint(back.Comps) || fmt.Sprint(orig.Ns) != fmt.Sprint(back.Ns) || fmt.Sprint(orig.Plain) != fmt.Sprint(back.Plain) || orig.One != back.One || orig.N != back.N || orig.On != back.On {
 			bad("roundtrip-field-equal", fmt.Sprintf("%+v", orig), fmt.Sprintf("%+v (text %q)", back, buf.String()))
